@@ -69,6 +69,8 @@ def harvest_texts():
     # by the runtime dump (property default values) can be any string
     out = {'doc': {}, 'pdoc': {}, 'tdoc': {}, 'version': {}, 'stability': {}, 'attr': {},
            'raw': dict((k, v.replace('\n *', '\n')) for k, v in TEXT_CLASSES.items())}
+    out['raw']['cr'] = 'a\rb'          # carriage returns survive only as character references in attributes
+    out['raw']['crlf'] = 'a\r\nb\r\n'
     out['raw']['zero'] = '0'        # "present with value 0 / empty" must stay distinct from "absent"
     out['raw']['empty'] = ''
     parser = GtkDocCommentBlockParser()
@@ -89,6 +91,14 @@ def harvest_texts():
         if t is not None and t.description:
             out['tdoc'][cls] = t.description
         a = b.annotations.get('attributes')
+        if a:
+            val = list(a.values())[0]
+            if val:
+                out['attr'][cls] = val
+    for cls, v in (('cr', 'a\rb'), ('crlf', 'a\r\nb'), ('tab2', 'a\tb')):
+        blocks = parser.parse_comment_blocks([('/**\n * foo_f: (attributes k=%s)\n *\n * d\n */' % v, '/src/foo.c', 10)])
+        b = blocks.get('foo_f')
+        a = b.annotations.get('attributes') if b is not None else None
         if a:
             val = list(a.values())[0]
             if val:
@@ -503,6 +513,18 @@ def b_parameter(o, shape='int'):
     return ns
 
 
+def b_parameter_direction(o):
+    """full cross product direction {in,out,inout} x nullable x optional x caller-allocates x not-nullable"""
+    ns = new_ns()
+    direction = 'out' if o('out') else ('inout' if o('inout') else 'in')
+    p = ast.Parameter('p', ast.Type(target_fundamental='utf8', ctype='char**' if direction != 'in' else 'char*'),
+                      direction=direction, transfer='full', nullable=o('nullable'), optional=o('optional'),
+                      caller_allocates=o('caller_allocates'), not_nullable=o('not_nullable'))
+    f = ast.Function('f', ast.Return(VOID(), transfer='none'), [p], False, 'foo_f')
+    ns.append(f)
+    return ns
+
+
 def b_instance_parameter(o):
     ns = new_ns()
     rec = ast.Record('Rec', ctype='FooRec')
@@ -793,7 +815,7 @@ KINDS = {
     'alias': b_alias, 'constant': b_constant, 'enumeration': b_enum, 'bitfield': b_bitfield, 'member': b_member,
     'callback': b_callback, 'function': b_function, 'method': b_method, 'constructor': b_constructor,
     'static-function': b_static, 'function-inline': b_inline, 'method-inline': b_method_inline,
-    'function-macro': b_macro, 'parameter': b_parameter,
+    'function-macro': b_macro, 'parameter': b_parameter, 'parameter-direction': b_parameter_direction,
     'instance-parameter': b_instance_parameter, 'return-value': b_return, 'record': b_record, 'union': b_union,
     'field': b_field, 'field-callback': b_field_callback, 'field-anonymous': b_field_anon, 'boxed': b_boxed,
     'class': b_class, 'interface': b_interface, 'property': b_property, 'signal': b_signal, 'virtual-method': b_vfunc,
@@ -806,13 +828,38 @@ SHAPED = {'parameter': b_parameter, 'return-value': b_return, 'field': b_field, 
 EXCLUDED = [
     ('parameter', lambda on: 'caller_allocates' in on and not ({'out', 'inout'} & on),
      'caller-allocates is only set together with direction out/inout (maintransformer._apply_annotations_param_ret_common)'),
+    ('parameter-direction', lambda on: 'caller_allocates' in on and not ({'out', 'inout'} & on), 'same'),
 ]
 
 
 def discover(builder, **kw):
-    o = Opt(record=True)
-    builder(o, **kw)
-    return o.names, o.slots
+    """Names of all toggles and text slots of a builder.  Toggles may be queried only on some paths
+    (elif chains, toggles nested under another toggle), so the builder is run with: nothing on, each known
+    toggle alone, everything on, everything but one - until no new name appears."""
+    names, slots = [], []
+
+    def run_with(on):
+        o = Opt(on=on)
+        builder(o, **kw)
+        new = False
+        for n in o.names:
+            if n not in names:
+                names.append(n)
+                new = True
+        for sl in o.slots:
+            if sl not in slots:
+                slots.append(sl)
+        return new
+
+    changed = True
+    while changed:
+        changed = run_with(())
+        for n in list(names):
+            changed |= run_with((n,))
+        changed |= run_with(tuple(names))
+        for n in list(names):
+            changed |= run_with(tuple(x for x in names if x != n))
+    return names, slots
 
 
 def group_of(name):
@@ -1012,7 +1059,7 @@ def sink_case():
         T.Enum('FooE', [('FOO_E_A', 0), ('FOO_E_B', 1)]), T.Enum('FooFlags', [('FOO_FLAGS_X', 1), ('FOO_FLAGS_Y', 2)], bitfield=True),
         T.Enum('FooErr', [('FOO_ERR_FAILED', 0)]), T.Func('foo_err_quark', 'GQuark', []),
         T.Func('foo_e_get_type', 'GType', []),
-        T.Const('FOO_INT', 5), T.Const('FOO_STR', 'a <b> & "c"\n'), T.Const('FOO_D', 1.5), T.Const('FOO_B', True),
+        T.Const('FOO_INT', 5), T.Const('FOO_STR', 'a <b> & "c"\n'), T.Const('FOO_CR', 'a\rb\r\nc\td'), T.Const('FOO_D', 1.5), T.Const('FOO_B', True),
         T.Macro('FOO_MACRO', ['a', 'b']),
         T.Typedef('FooAl', 'int'), T.Typedef('FooOpaque', 'struct _FooOpaque'),
         T.Func('foo_arr', 'int*', [('int*', 'in_arr'), ('int', 'n'), ('int*', 'n_out'), ('char**', 'strv'), ('GList*', 'l'),
@@ -1049,6 +1096,7 @@ def sink_case():
             '<implements name="FooIface"/>'
             '<property name="count" type="gint" flags="227" default-value="0"/>'
             '<property name="name" type="gchararray" flags="11" default-value="a &lt;b&gt; &amp; c"/>'
+            '<property name="sep" type="gchararray" flags="3" default-value="x&#13;&#10;y&#9;z"/>'
             '<signal name="changed" return="gboolean" when="last" detailed="1" action="1" no-hooks="1" no-recurse="1">'
             '<param type="FooThing"/><param type="gint"/></signal>'
             '<signal name="first" return="void" when="first"><param type="FooThing"/></signal>'
@@ -1182,6 +1230,16 @@ def extra_scan_cases():
                                      ret=('(array length=n)', 'r')),
                                g.blk('FooXCb', params=[('data', '(closure)', 'd')])],
                   'dump': None, 'note': 'length index 0 on parameter and return, closure=0 in a callback'})
+    # direction x nullable x optional through the real annotation path
+    for d_ann in ('', '(out)', '(inout)', '(out caller-allocates)', '(out callee-allocates)'):
+        for n_ann in ('', '(nullable)', '(optional)', '(nullable) (optional)', '(allow-none)', '(not nullable)'):
+            ann = (d_ann + ' ' + n_ann).strip()
+            if not ann:
+                continue
+            cases.append({'part': 'X', 'decls': [g.fn('foo_d', 'void', [('char**', 'p'), ('FooRecD*', 'q')]), g.td('FooRecD', 'struct _FooRecD'),
+                                                 g.st('_FooRecD', [['f', 'x', 'int']])],
+                          'comments': [g.blk('foo_d', params=[('p', ann, 'p'), ('q', ann, 'q')])], 'dump': None,
+                          'note': 'parameters annotated %s' % ann})
     for tag in ('Since: 1.2', 'Deprecated: 1.4: gone', 'Stability: Unstable', 'Since: 1.2: why'):
         for what, decl in (('FooAl', g.td('FooAl', 'int')), ('foo_f', g.fn('foo_f', 'void', [])),
                            ('FooCb', g.cb('FooCb', 'void', [])), ('FooRec', g.td('FooRec', 'struct _FooRec'))):
